@@ -26,5 +26,12 @@ def run_all(repo: Path, out: Path) -> dict:
             report[fname] = summary
     for f in out.glob("*.v"):
         if f.name not in wanted:
-            f.unlink()
+            # a table that could not be regenerated must not survive as a stale source OR as a stale
+            # compiled file: theorems depending on it then fail to build (fail closed)
+            for ext in (".v", ".vo", ".vos", ".vok", ".glob"):
+                f.with_suffix(ext).unlink(missing_ok=True)
+    for f in out.glob("*.vo"):
+        if f.with_suffix(".v").name not in wanted:
+            for ext in (".vo", ".vos", ".vok", ".glob"):
+                f.with_suffix(ext).unlink(missing_ok=True)
     return report
